@@ -107,7 +107,10 @@ static uint64_t run_rop(const Shared &S, const ROp &op) {
         unsigned ni = 0; mix(h, hwloc_memattr_get_initiators(t, id, tg[i], 0, &ni, NULL, NULL)); mix(h, ni); std::vector<struct hwloc_location> iv(ni + 1); std::vector<hwloc_uint64_t> ivv(ni + 1); unsigned ni2 = ni; if (ni) hwloc_memattr_get_initiators(t, id, tg[i], 0, &ni2, iv.data(), ivv.data());
         for (unsigned k = 0; k < ni2 && k < ni; k++) { mix(h, ivv[k]); if (iv[k].type == HWLOC_LOCATION_TYPE_CPUSET) mixb(h, iv[k].location.cpuset); else mixo(h, iv[k].location.object); }
         struct hwloc_location best; hwloc_uint64_t bv = 0; int rb = hwloc_memattr_get_best_initiator(t, id, tg[i], 0, &best, &bv); mix(h, rb); if (rb == 0) { mix(h, bv); if (best.type == HWLOC_LOCATION_TYPE_CPUSET) mixb(h, best.location.cpuset); else mixo(h, best.location.object); } }
-      hwloc_obj_t bt = NULL; hwloc_uint64_t bv = 0; int rb = hwloc_memattr_get_best_target(t, id, &loc, 0, &bt, &bv); mix(h, rb); if (rb == 0) { mixo(h, bt); mix(h, bv); } break; }
+      hwloc_obj_t bt = NULL; hwloc_uint64_t bv = 0; int rb = hwloc_memattr_get_best_target(t, id, &loc, 0, &bt, &bv); mix(h, rb); if (rb == 0) { mixo(h, bt); mix(h, bv); }
+      // the same queries on an arbitrary NUMA node, whether or not the attribute has a value for it
+      { int nn = hwloc_get_nbobjs_by_type(t, HWLOC_OBJ_NUMANODE); if (nn > 0) { hwloc_obj_t node = hwloc_get_obj_by_type(t, HWLOC_OBJ_NUMANODE, op.b % nn); hwloc_uint64_t v = 0; mix(h, hwloc_memattr_get_value(t, id, node, &loc, 0, &v)); struct hwloc_location best; hwloc_uint64_t bv2 = 0; int rb2 = hwloc_memattr_get_best_initiator(t, id, node, 0, &best, &bv2); mix(h, rb2 == 0 ? 1 : 0); if (rb2 == 0) mix(h, bv2); unsigned ni = 0; mix(h, hwloc_memattr_get_initiators(t, id, node, 0, &ni, NULL, NULL) == 0 ? 1 : 0); mix(h, ni); } }
+      break; }
   case R_LOCALNODES: { struct hwloc_location loc; loc.type = HWLOC_LOCATION_TYPE_CPUSET; loc.location.cpuset = na->cpuset; if (op.fl & 1) { loc.type = HWLOC_LOCATION_TYPE_OBJECT; loc.location.object = oa; } unsigned nr = 16; hwloc_obj_t nodes[16]; int r = hwloc_get_local_numanode_objs(t, (op.fl & 2) ? NULL : &loc, &nr, nodes, (op.fl >> 2) % 8); mix(h, r); if (r == 0) { mix(h, nr); for (unsigned i = 0; i < nr && i < 16; i++) mixo(h, nodes[i]); }
       hwloc_bitmap_t ns = hwloc_bitmap_alloc(); mix(h, hwloc_topology_get_default_nodeset(t, ns, 0)); mixb(h, ns); hwloc_bitmap_free(ns); break; }
   case R_CPUKINDS: { int nr = hwloc_cpukinds_get_nr(t, 0); mix(h, nr); for (int k = 0; k < nr && k < 16; k++) { hwloc_bitmap_t cs = hwloc_bitmap_alloc(); int eff = -2; struct hwloc_infos_s *inf = NULL; int r = hwloc_cpukinds_get_info(t, k, cs, &eff, &inf, 0); mix(h, r); mixb(h, cs); mix(h, eff); if (r == 0 && inf) for (unsigned i = 0; i < inf->count; i++) { mixs(h, inf->array[i].name); mixs(h, inf->array[i].value); } hwloc_bitmap_free(cs); }
@@ -219,6 +222,13 @@ static void run_history(Case &c, unsigned idx, unsigned nthreads, Barrier *bar, 
   for (size_t i = idx; i < c.ops.size(); i += nthreads) { Draw od = c.ops[i]; OpRes r = apply_op(c, od, t, oo); if (r.structural) structural = true; if (desc) c.desc(" | " + r.desc); }
   hwloc_topology_refresh(t);
   { WFError e; wf_check(t, e); if (!e.ok()) c.fail("wf", "thread %u: %s", idx, e.msgs[0].c_str()); }
+  // a diff episode on private topologies (process-wide state is involved: the XML backends are looked up through the component registry,
+  // whose reference count every topology and every diff import/export takes part in)
+  if (d.chance(1, 2)) { hwloc_topology_t b2 = NULL; if (hwloc_topology_dup(&b2, t) == 0) { bool complex_edit = d.chance(1, 2); hwloc_obj_t r2 = hwloc_get_root_obj(b2); if (complex_edit) hwloc_obj_add_info(r2, "c17-extra", "1"); else { free(r2->name); r2->name = strdup("c17-renamed"); if (!hwloc_get_root_obj(t)->name) hwloc_get_root_obj(t)->name = strdup("c17"); }
+      hwloc_topology_diff_t df = NULL; int br = hwloc_topology_diff_build(t, b2, 0, &df); if (br < 0) c.fail("diff_build", "thread %u: diff_build failed", idx); if (complex_edit && br != 1) c.fail("diff_build", "thread %u: an added info pair did not make the diff too complex (ret %d)", idx, br);
+      if (df) { char *xb = NULL; int xl = 0; errno = 0; int er = hwloc_topology_diff_export_xmlbuffer(df, "c17", &xb, &xl); if (br == 1) { if (!(er == -1 && errno == EINVAL)) c.fail("diff_export", "thread %u: a too complex diff was exported (ret %d errno %d)", idx, er, errno); } else { if (er != 0) c.fail("diff_export", "thread %u: diff export failed errno %d", idx, errno); hwloc_topology_diff_t back = NULL; char *rn = NULL; if (hwloc_topology_diff_load_xmlbuffer(xb, xl, &back, &rn) != 0) c.fail("diff_export", "thread %u: the exported diff does not load", idx); hwloc_topology_diff_destroy(back); free(rn); hwloc_free_xmlbuffer(t, xb); }
+        hwloc_topology_diff_destroy(df); }
+      hwloc_topology_destroy(b2); if (desc) c.descf(" | diff episode (%s)", complex_edit ? "too complex" : "representable"); } }
   dump = dump_topology(t, DUMP_GP | DUMP_EXTRAS | DUMP_CONFIG); xml = export_xml(t, 0);
   hwloc_topology_t cp = NULL; if (hwloc_topology_dup(&cp, t) == 0) { std::string d2 = dump_topology(cp, DUMP_GP | DUMP_EXTRAS | DUMP_CONFIG); if (d2 != dump) c.fail("dup_equal", "thread %u: dup differs: %s", idx, first_diff(dump, d2).c_str()); hwloc_topology_destroy(cp); }
   hwloc_topology_destroy(t);
@@ -231,7 +241,8 @@ void h_run(Case &c) {
   // the single-threaded reference of every history first (it also yields the description of the case), then the same histories concurrently
   c.descf("%u threads, warm start%s", nthreads, keep ? " (main thread keeps a topology alive)" : "");
   std::vector<std::string> rdump(nthreads), rxml(nthreads); unsigned nloaded = 0; bool anystruct = false;
-  for (unsigned i = 0; i < nthreads; i++) { std::string desc; bool loaded, structural; c.attempt(strf("single-threaded reference run of history %u", i)); run_history(c, i, nthreads, NULL, rdump[i], rxml[i], loaded, structural, &desc); c.desc(desc); if (loaded) nloaded++; if (structural) anystruct = true; }
+  for (unsigned i = 0; i < nthreads; i++) { std::string desc; bool loaded, structural; c.attempt(strf("single-threaded reference run of history %u", i)); run_history(c, i, nthreads, NULL, rdump[i], rxml[i], loaded, structural, &desc); c.desc(desc); if (loaded) nloaded++; if (structural) anystruct = true;
+    if (g_keepalive) { c.attempt(strf("export of the topology the main thread keeps, after history %u", i)); (void)export_xml(g_keepalive, 0); } }
   Barrier bar(nthreads); std::vector<BThread> th(nthreads);
   c.attempt(strf("%u threads with independent topologies", nthreads));
   for (unsigned i = 0; i < nthreads; i++) { th[i].c = &c; th[i].idx = i; th[i].nthreads = nthreads; th[i].bar = &bar; if (pthread_create(&th[i].th, NULL, worker_main, &th[i]) != 0) c.fail("harness", "pthread_create failed"); }
@@ -242,6 +253,6 @@ void h_run(Case &c) {
   }
   if (nloaded >= 2 && anystruct) c.nontrivial();
   c.cls(strf("threads:%u", nthreads).c_str());
-  if (g_keepalive) hwloc_topology_destroy(g_keepalive);
+  if (g_keepalive) { c.attempt("export of the topology the main thread keeps, after all threads ended"); (void)export_xml(g_keepalive, 0); hwloc_topology_destroy(g_keepalive); }
 }
 #endif
